@@ -1,6 +1,7 @@
 // Executor of the whole-API workload: one generic Op -> one call of the real library.
 #include "ops.h"
 #include <errno.h>
+#include <fcntl.h>
 #include <stdarg.h>
 #include <wchar.h>
 #include <time.h>
@@ -88,9 +89,17 @@ static void apply_bufmode(FILE *f, int mode) {
     else if (mode == 2) setvbuf(f, nullptr, _IOLBF, 256);
     else if (mode == 3) setvbuf(f, nullptr, _IOFBF, 16);
 }
+static int devnull_fd() {
+    static int fd = -1;
+    if (fd < 0) fd = open("/dev/null", O_RDWR | O_CLOEXEC);
+    return fd;
+}
 static FILE *open_wr(Task &t, bool becomes_stdout) {
     cookie_io_functions_t io = {nullptr, wr_cookie, nullptr, nullptr};
     FILE *f = fopencookie(&t, "w", io);
+    // vfprintf_s rejects streams without a descriptor (fileno() < 0); a cookie stream has none. Give it one:
+    // glibc never uses the descriptor of a cookie stream, all I/O goes through the callbacks.
+    if (f) f->_fileno = devnull_fd();
     int mode = t.op->f.bufmode;
     // glibc flushes a line-buffered `stdout` whenever ANY thread reads from an unbuffered or line-buffered
     // stream. That is libc acting on the process-wide stdout object (shared caller data, outside C12's
